@@ -28,19 +28,42 @@
 (*           returned (an object cannot be destroyed while in use)         *)
 (*   RFinal  completion of an async coroutine bound to the future          *)
 (*           (async_promise::final_awaiter, async.h:217): no claim step    *)
+(*   ROvw    p = promise()  another (empty) promise move-ASSIGNED OVER p   *)
+(*           (promise::operator=, future.h:606): set_value(drop) on p, i.e.*)
+(*           claim of p + resolution to no-value, then claim of the other  *)
+(*           promise and the store into p's owner pointer; like the final  *)
+(*           destructor it needs the object for itself.  The assigned-from *)
+(*           promise is a NAMED object that lives on: it is then called    *)
+(*           with a value (must be refused: it is empty) and destroyed     *)
 (* Waiter kinds:                                                           *)
 (*   WCo  coroutine co_await f          WHv  coroutine co_await f.has_value()*)
 (*   WBl  thread f.wait()/sync()        WCb  callback awaiter subscribed   *)
 (*                                           through co_awaiter::subscribe *)
+(*   WMp  the callback of a callback-promise make_promise<T>(fn)           *)
+(*        (future_with_cb, future.h:878-892): the future lives on the heap, *)
+(*        is born with its own awaiter node installed in the slot and      *)
+(*        deletes itself after the callback ran; the callback is the ONLY  *)
+(*        observer of the result (no other waiter can reach the future)    *)
+(*                                                                         *)
+(* Payload accounting (observable with an instance-counted, move-only      *)
+(* value type): `arg[r]` is the state of the rvalue argument object of a   *)
+(* value resolver (p(std::move(x)), set_value(std::move(x)), the tuple     *)
+(* element of bind(x)(), the operand of co_return in async::start(p)):     *)
+(* only the winning call may consume it; `built` counts the payload        *)
+(* instances the library constructed (future::set, future.h:555).          *)
 (***************************************************************************)
 EXTENDS Naturals, Sequences, FiniteSets, TLC
 
-CONSTANTS RVal, RExc, RDrop, RMdes, RMasg, RDtor, RFinal, WCo, WHv, WBl, WCb,
+CONSTANTS RVal, RExc, RDrop, RMdes, RMasg, RDtor, RFinal, ROvw, WCo, WHv, WBl, WCb, WMp,
           PreResolved   \* "none", or how the future was already resolved when the threads start ("val" | "exc" | "drop"):
                         \* a future built by result_of / operator<< from a function that returned a ready future or threw
 
-Resolvers == RVal \cup RExc \cup RDrop \cup RMdes \cup RMasg \cup RDtor \cup RFinal
-Waiters == WCo \cup WHv \cup WBl \cup WCb
+Resolvers == RVal \cup RExc \cup RDrop \cup RMdes \cup RMasg \cup RDtor \cup RFinal \cup ROvw
+Waiters == WCo \cup WHv \cup WBl \cup WCb \cup WMp
+Inline == WCb \cup WMp      \* nodes whose resume function runs inside the chain walk
+
+(* nobody but the callback can reach the future of a callback-promise, and it is born pending *)
+ASSUME WMp # {} => (Waiters = WMp /\ Cardinality(WMp) = 1 /\ PreResolved = "none" /\ RFinal = {})
 Coro == WCo \cup WHv
 
 VARIABLES
@@ -59,32 +82,41 @@ VARIABLES
     flag,      \* sync_awaiter::flag per blocking waiter
     wpc,       \* waiter pc
     seen,      \* what the waiter read when released: [tag, payload] or "none"
-    resumes    \* how many times the waiter was released
+    resumes,   \* how many times the waiter was released
+    arg,       \* value resolver's argument object: "intact" | "moved" (consumed by a move construction)
+    built      \* number of payload instances constructed by the library since the threads started
 
-vars == <<owner, slot, nxt, tag, payload, writes, rpc, rres, cur, rest, sp, swapped, flag, wpc, seen, resumes>>
+vars == <<owner, slot, nxt, tag, payload, writes, rpc, rres, cur, rest, sp, swapped, flag, wpc, seen, resumes, arg, built>>
 
 NoRes == [tag |-> "unread", payload |-> "unread"]
 Result == [tag |-> tag, payload |-> payload]
 
+InitRpc(r) == IF r \in RFinal THEN "swap" ELSE IF r \in RDtor THEN "dtor" ELSE IF r \in ROvw THEN "ovw"
+              ELSE IF r \in RMasg THEN "mclaim_own" ELSE "claim"
+InitWpc(w) == IF w \in WCb THEN "cas" ELSE IF w \in WMp THEN "parked" ELSE "check"
+
 Init ==
     /\ owner = IF RFinal # {} \/ PreResolved # "none" THEN "null" ELSE "fut"
-    /\ slot = IF PreResolved # "none" THEN "ready" ELSE "null"
+    (* future_with_cb's constructor: this->_awaiter = this (future.h:883) *)
+    /\ slot = IF PreResolved # "none" THEN "ready" ELSE IF WMp # {} THEN CHOOSE w \in WMp : TRUE ELSE "null"
     /\ nxt = [w \in Waiters |-> "null"]
     (* a finishing coroutine has stored its result before its first atomic operation *)
     /\ tag = IF RFinal # {} THEN "val" ELSE IF PreResolved \in {"val", "exc"} THEN PreResolved ELSE "none"
     /\ payload = IF RFinal # {} THEN CHOOSE r \in RFinal : TRUE ELSE IF PreResolved \in {"val", "exc"} THEN "pre" ELSE "none"
     /\ writes = IF RFinal # {} \/ PreResolved \in {"val", "exc"} THEN 1 ELSE 0
-    /\ rpc = [r \in Resolvers |-> IF r \in RFinal THEN "swap" ELSE IF r \in RDtor THEN "dtor"
-                                 ELSE IF r \in RMasg THEN "mclaim_own" ELSE "claim"]
+    /\ rpc = [r \in Resolvers |-> InitRpc(r)]
     /\ rres = [r \in Resolvers |-> "none"]
     /\ cur = [r \in Resolvers |-> "null"]
     /\ rest = [r \in Resolvers |-> "null"]
     /\ sp = [r \in Resolvers |-> <<>>]
     /\ swapped = {}
     /\ flag = [w \in Waiters |-> FALSE]
-    /\ wpc = [w \in Waiters |-> IF w \in WCb THEN "cas" ELSE "check"]
+    /\ wpc = [w \in Waiters |-> InitWpc(w)]
     /\ seen = [w \in Waiters |-> NoRes]
     /\ resumes = [w \in Waiters |-> 0]
+    /\ arg = [r \in Resolvers |-> "intact"]
+    (* the finishing coroutine's co_return constructed the stored value *)
+    /\ built = IF RFinal # {} THEN 1 ELSE 0
 
 -----------------------------------------------------------------------------
 (* resume_chain_lk (awaiter.h:98-107): walk the detached chain from node n.  Coroutine nodes go
@@ -105,7 +137,7 @@ Walk(n, st, res) ==
       ELSE LET nx == st.nxt[n]
                st1 == [st EXCEPT !.nxt[n] = "null"]
            IN  IF n \in Coro THEN Walk(nx, [st1 EXCEPT !.sp = Append(st1.sp, n)], res)
-               ELSE IF n \in WCb THEN Walk(nx, Release(st1, n, res), res)
+               ELSE IF n \in Inline THEN Walk(nx, Release(st1, n, res), res)
                ELSE [st1 EXCEPT !.cur = n, !.rest = nx, !.pc = "flagstore"]
 
 WalkFrom(r, n, res) ==
@@ -119,7 +151,8 @@ WalkFrom(r, n, res) ==
         /\ sp' = [sp EXCEPT ![r] = st.sp]
         /\ cur' = [cur EXCEPT ![r] = st.cur]
         /\ rest' = [rest EXCEPT ![r] = st.rest]
-        /\ rpc' = [rpc EXCEPT ![r] = st.pc]
+        (* an assignment over p goes on after its set_value(drop) returned *)
+        /\ rpc' = [rpc EXCEPT ![r] = IF st.pc = "done" /\ r \in ROvw THEN "oclaim" ELSE st.pc]
         /\ rres' = [rres EXCEPT ![r] = IF st.pc = "done" /\ r \in (RVal \cup RExc \cup RDrop) THEN "true" ELSE rres[r]]
 
 -----------------------------------------------------------------------------
@@ -134,12 +167,18 @@ Claim(r) ==
                    THEN /\ tag' = IF r \in RVal THEN "val" ELSE "exc"
                         /\ payload' = r
                         /\ writes' = writes + 1
-                   ELSE UNCHANGED <<tag, payload, writes>>
+                        (* future::set constructs the value in place FROM the argument (future.h:555): the one
+                           and only consumption of an argument, by the one and only winner *)
+                        /\ arg' = IF r \in RVal THEN [arg EXCEPT ![r] = "moved"] ELSE arg
+                        /\ built' = IF r \in RVal THEN built + 1 ELSE built
+                   ELSE UNCHANGED <<tag, payload, writes, arg, built>>
               /\ rpc' = [rpc EXCEPT ![r] = IF r \in RMdes THEN "dload_own" ELSE IF r \in RMasg THEN "massign_own" ELSE "swap"]
               /\ UNCHANGED rres
-         ELSE /\ rpc' = [rpc EXCEPT ![r] = IF r \in RMdes THEN "dload_null" ELSE IF r \in RMasg THEN "massign_null" ELSE "done"]
-              /\ rres' = [rres EXCEPT ![r] = IF r \in RMdes \cup RMasg THEN "none" ELSE "false"]
-              /\ UNCHANGED <<tag, payload, writes>>
+         ELSE /\ rpc' = [rpc EXCEPT ![r] = IF r \in RMdes THEN "dload_null" ELSE IF r \in RMasg THEN "massign_null"
+                                              ELSE IF r \in ROvw THEN "oclaim" ELSE "done"]
+              /\ rres' = [rres EXCEPT ![r] = IF r \in RMdes \cup RMasg \cup ROvw THEN "none" ELSE "false"]
+              (* a refused call: nothing is constructed, the argument stays with the caller *)
+              /\ UNCHANGED <<tag, payload, writes, arg, built>>
     /\ UNCHANGED <<slot, nxt, cur, rest, sp, swapped, flag, wpc, seen, resumes>>
 
 (* promise::operator=(promise&&): first `set_value(drop)` on the assigned-to promise q (claim exchange on q's own,
@@ -147,25 +186,55 @@ Claim(r) ==
 MClaimOwn(r) ==
     /\ rpc[r] = "mclaim_own"
     /\ rpc' = [rpc EXCEPT ![r] = "claim"]
-    /\ UNCHANGED <<owner, slot, nxt, tag, payload, writes, rres, cur, rest, sp, swapped, flag, wpc, seen, resumes>>
+    /\ UNCHANGED <<owner, slot, nxt, tag, payload, writes, rres, cur, rest, sp, swapped, flag, wpc, seen, resumes, arg, built>>
 
 MAssign(r) ==
     /\ rpc[r] \in {"massign_own", "massign_null"}
     /\ rpc' = [rpc EXCEPT ![r] = IF rpc[r] = "massign_own" THEN "dload_own" ELSE "dload_null"]
-    /\ UNCHANGED <<owner, slot, nxt, tag, payload, writes, rres, cur, rest, sp, swapped, flag, wpc, seen, resumes>>
+    /\ UNCHANGED <<owner, slot, nxt, tag, payload, writes, rres, cur, rest, sp, swapped, flag, wpc, seen, resumes, arg, built>>
 
 (* the final destructor of the promise object may only run when nobody uses the object any more *)
 DtorStart(r) ==
     /\ rpc[r] = "dtor"
     /\ \A o \in Resolvers \ RDtor : rpc[o] = "done"
     /\ rpc' = [rpc EXCEPT ![r] = IF owner = "fut" THEN "dload_p_own" ELSE "dload_p_null"]
-    /\ UNCHANGED <<owner, slot, nxt, tag, payload, writes, rres, cur, rest, sp, swapped, flag, wpc, seen, resumes>>
+    /\ UNCHANGED <<owner, slot, nxt, tag, payload, writes, rres, cur, rest, sp, swapped, flag, wpc, seen, resumes, arg, built>>
+
+(* promise::operator=(promise&&) applied TO p (future.h:606-612): like the destructor, an assignment over the object may
+   only run when no other call is using it; first `set_value(drop)` on p itself = Claim(r) [+ SwapReady(r) and the walk] *)
+OvwStart(r) ==
+    /\ rpc[r] = "ovw"
+    /\ \A o \in Resolvers \ (RDtor \cup ROvw) : rpc[o] = "done"
+    /\ \A o \in ROvw \ {r} : rpc[o] \in {"ovw", "done"}
+    /\ rpc' = [rpc EXCEPT ![r] = "claim"]
+    /\ UNCHANGED <<owner, slot, nxt, tag, payload, writes, rres, cur, rest, sp, swapped, flag, wpc, seen, resumes, arg, built>>
+
+(* ... then `other.claim()`: exchange on the (empty) assigned-from promise's owner pointer (future.h:609,696) *)
+OClaim(r) ==
+    /\ rpc[r] = "oclaim"
+    /\ rpc' = [rpc EXCEPT ![r] = "ostore"]
+    /\ UNCHANGED <<owner, slot, nxt, tag, payload, writes, rres, cur, rest, sp, swapped, flag, wpc, seen, resumes, arg, built>>
+
+(* ... and the store of what was claimed (nothing) into p's owner pointer (future.h:609) *)
+OStore(r) ==
+    /\ rpc[r] = "ostore"
+    /\ owner' = "null"
+    /\ rpc' = [rpc EXCEPT ![r] = "qclaim"]
+    /\ UNCHANGED <<slot, nxt, tag, payload, writes, rres, cur, rest, sp, swapped, flag, wpc, seen, resumes, arg, built>>
+
+(* the moved-from source q lives on and is now called with a value: q(v) -> claim on q's (null) owner pointer (future.h:696)
+   -> refused; nothing changes, the argument stays with the caller.  Then q dies: ~promise loads null (DLoad) *)
+QClaim(r) ==
+    /\ rpc[r] = "qclaim"
+    /\ rres' = [rres EXCEPT ![r] = "false"]
+    /\ rpc' = [rpc EXCEPT ![r] = "dload_q"]
+    /\ UNCHANGED <<owner, slot, nxt, tag, payload, writes, cur, rest, sp, swapped, flag, wpc, seen, resumes, arg, built>>
 
 (* promise::~promise: load(relaxed) of the (own) owner pointer; resolve if non-null *)
 DLoad(r) ==
-    /\ rpc[r] \in {"dload_own", "dload_null", "dload_p_own", "dload_p_null"}
+    /\ rpc[r] \in {"dload_own", "dload_null", "dload_p_own", "dload_p_null", "dload_q"}
     /\ rpc' = [rpc EXCEPT ![r] = IF rpc[r] \in {"dload_own", "dload_p_own"} THEN "swap" ELSE "done"]
-    /\ UNCHANGED <<owner, slot, nxt, tag, payload, writes, rres, cur, rest, sp, swapped, flag, wpc, seen, resumes>>
+    /\ UNCHANGED <<owner, slot, nxt, tag, payload, writes, rres, cur, rest, sp, swapped, flag, wpc, seen, resumes, arg, built>>
 
 (* future::resolve -> awaiter::resume_chain_set_ready: exchange(&disabled), then walk *)
 SwapReady(r) ==
@@ -173,19 +242,19 @@ SwapReady(r) ==
     /\ slot' = "ready"
     /\ swapped' = swapped \cup {r}
     /\ WalkFrom(r, slot, Result)
-    /\ UNCHANGED <<owner, tag, payload, writes, flag>>
+    /\ UNCHANGED <<owner, tag, payload, writes, flag, arg, built>>
 
 FlagStore(r) ==
     /\ rpc[r] = "flagstore"
     /\ flag' = [flag EXCEPT ![cur[r]] = TRUE]
     /\ rpc' = [rpc EXCEPT ![r] = "notify"]
-    /\ UNCHANGED <<owner, slot, nxt, tag, payload, writes, rres, cur, rest, sp, swapped, wpc, seen, resumes>>
+    /\ UNCHANGED <<owner, slot, nxt, tag, payload, writes, rres, cur, rest, sp, swapped, wpc, seen, resumes, arg, built>>
 
 (* flag.notify_all() touches the node by address only; then the walk continues *)
 Notify(r) ==
     /\ rpc[r] = "notify"
     /\ WalkFrom(r, rest[r], Result)
-    /\ UNCHANGED <<owner, slot, tag, payload, writes, swapped, flag>>
+    /\ UNCHANGED <<owner, slot, tag, payload, writes, swapped, flag, arg, built>>
 
 -----------------------------------------------------------------------------
 (* waiters *)
@@ -202,7 +271,7 @@ CheckReady(w) ==
               /\ wpc' = [wpc EXCEPT ![w] = "done"]
          ELSE /\ wpc' = [wpc EXCEPT ![w] = "cas"]
               /\ UNCHANGED <<seen, resumes>>
-    /\ UNCHANGED <<owner, slot, nxt, tag, payload, writes, rpc, rres, cur, rest, sp, swapped, flag>>
+    /\ UNCHANGED <<owner, slot, nxt, tag, payload, writes, rpc, rres, cur, rest, sp, swapped, flag, arg, built>>
 
 (* one iteration of compare_exchange(_next, this): expected value is the node's own _next *)
 SubCAS(w) ==
@@ -217,14 +286,14 @@ SubCAS(w) ==
                    ELSE /\ nxt' = [nxt EXCEPT ![w] = slot]
                         /\ UNCHANGED wpc
               /\ UNCHANGED slot
-    /\ UNCHANGED <<owner, tag, payload, writes, rpc, rres, cur, rest, sp, swapped, flag, seen, resumes>>
+    /\ UNCHANGED <<owner, tag, payload, writes, rpc, rres, cur, rest, sp, swapped, flag, seen, resumes, arg, built>>
 
 (* subscription refused: acquire fence, then the waiter proceeds to read the result itself *)
 Fence(w) ==
     /\ wpc[w] = "fence"
     /\ ReadNow(w)
     /\ wpc' = [wpc EXCEPT ![w] = "done"]
-    /\ UNCHANGED <<owner, slot, nxt, tag, payload, writes, rpc, rres, cur, rest, sp, swapped, flag>>
+    /\ UNCHANGED <<owner, slot, nxt, tag, payload, writes, rpc, rres, cur, rest, sp, swapped, flag, arg, built>>
 
 (* flag.wait(false) returns once the flag is set; the sync_awaiter on the waiter's stack dies *)
 FlagWait(w) ==
@@ -232,13 +301,15 @@ FlagWait(w) ==
     /\ flag[w]
     /\ ReadNow(w)
     /\ wpc' = [wpc EXCEPT ![w] = "done"]
-    /\ UNCHANGED <<owner, slot, nxt, tag, payload, writes, rpc, rres, cur, rest, sp, swapped, flag>>
+    /\ UNCHANGED <<owner, slot, nxt, tag, payload, writes, rpc, rres, cur, rest, sp, swapped, flag, arg, built>>
 
 -----------------------------------------------------------------------------
 Next == \/ \E r \in Resolvers : Claim(r) \/ MClaimOwn(r) \/ MAssign(r) \/ DtorStart(r) \/ DLoad(r) \/ SwapReady(r) \/ FlagStore(r) \/ Notify(r)
+        \/ \E r \in ROvw : OvwStart(r) \/ OClaim(r) \/ OStore(r) \/ QClaim(r)
         \/ \E w \in Waiters : CheckReady(w) \/ SubCAS(w) \/ Fence(w) \/ FlagWait(w)
 
 Fair == /\ \A r \in Resolvers : WF_vars(Claim(r) \/ MClaimOwn(r) \/ MAssign(r) \/ DtorStart(r) \/ DLoad(r) \/ SwapReady(r) \/ FlagStore(r) \/ Notify(r))
+        /\ \A r \in ROvw : WF_vars(OvwStart(r) \/ OClaim(r) \/ OStore(r) \/ QClaim(r))
         /\ \A w \in Waiters : WF_vars(CheckReady(w) \/ SubCAS(w) \/ Fence(w) \/ FlagWait(w))
 
 Spec == Init /\ [][Next]_vars /\ Fair
@@ -270,12 +341,26 @@ PayloadIsWinners ==
         /\ r \in RVal => tag = "val" /\ payload = r
         /\ r \in RExc => tag = "exc" /\ payload = r
         /\ r \in RFinal => tag = "val" /\ payload = r
-        /\ r \in RDrop \cup RMdes \cup RMasg \cup RDtor => tag = "none" /\ payload = "none"
+        /\ r \in RDrop \cup RMdes \cup RMasg \cup RDtor \cup ROvw => tag = "none" /\ payload = "none"
 
 (* losers report failure and leave no trace (action property) *)
 LosersLeaveNoTrace ==
     [][\A r \in Resolvers :
-         (rres'[r] = "false" /\ rres[r] # "false") => UNCHANGED <<slot, nxt, tag, payload, writes, flag, seen, resumes>>]_vars
+         (rres'[r] = "false" /\ rres[r] # "false") => UNCHANGED <<slot, nxt, tag, payload, writes, flag, seen, resumes, arg, built>>]_vars
+
+(* ... which includes the ARGUMENTS of a refused call: only the winner's argument is consumed, and the library
+   constructs exactly one payload instance (the stored value) when a value wins, none otherwise *)
+ArgConsumedOnlyByWinner ==
+    \A r \in Resolvers : arg[r] = "moved" <=> (r \in RVal /\ tag = "val" /\ payload = r)
+PayloadBuiltOnce == built = IF tag = "val" /\ payload # "pre" THEN 1 ELSE 0
+
+(* a promise that is dropped / destroyed / overwritten without a value resolves to no-value, and whoever waits - the
+   callback of a callback-promise included - is told so (rather than never being called) *)
+NoValueKinds == RDrop \cup RMdes \cup RMasg \cup RDtor \cup ROvw
+DropMeansNoValue ==
+    \A r \in swapped \cap NoValueKinds :
+        /\ \A w \in Waiters : resumes[w] > 0 => seen[w] = [tag |-> "none", payload |-> "none"]
+        /\ \A w \in WMp : rpc[r] \in {"done", "oclaim", "ostore", "qclaim", "dload_q"} => resumes[w] = 1
 
 (* once ready the result never changes *)
 ResultStable == [][slot = "ready" => UNCHANGED <<tag, payload, slot>>]_vars
